@@ -68,7 +68,7 @@ def law_configs(draw, classes=("metropolis", "gibbs", "pca", "hmc", "ensemble"))
             cfg["box_abs"] = [lo, hi]
     if cls == "hmc":
         cfg["hmc"] = {"eps_log": draw(st.floats(-0.5, 0.25)), "mass": draw(st.sampled_from(["default", "scalar", "vector", "matrix"])),
-                      "mass_log": [draw(st.floats(-0.5, 0.5)) for _ in range(d)], "mass_corr": draw(st.floats(-0.5, 0.5)), "grad": True}
+                      "mass_log": [draw(st.floats(-1.0, 1.0)) for _ in range(d)], "mass_corr": draw(st.sampled_from([0.0, 0.45, -0.45, 0.65, draw(st.floats(-0.68, 0.68))])), "grad": True}
         if "box_abs" in cfg and cfg["hmc"]["mass"] == "matrix":
             cfg["hmc"]["mass"] = "vector"   # bounded + full-matrix mass is a recorded C07 finding: keep it out of the law experiments
     if cls == "ensemble":
